@@ -389,8 +389,14 @@ fn run_unit(input: &Value) -> CaseOut {
     let mut files = Vec::new();
     walk(&u.stored, &mut files);
     let mut raw: BTreeMap<String, Vec<u8>> = BTreeMap::new();
+    let mut strays: Vec<String> = Vec::new();
     for f in &files {
-        let name = coq_path_of(&u, f).unwrap_or_else(|| panic!("unexpected file {}", f.display()));
+        // a file the model has no name for (e.g. a temporary file outside stored/tmp) is an observation, not a
+        // harness error: it is reported under a path the model never writes, so the case cannot agree with the model
+        let name = match coq_path_of(&u, f) {
+            Some(n) => n,
+            None => { strays.push(f.display().to_string()); format!("(PTmp {})", 8 + strays.len()) }
+        };
         let mut data = std::fs::read(f).unwrap();
         if name == "PStatus" { normalise(&mut data, 1); }
         for (_, p, uri, n) in &u.points { if p == f { normalise(&mut data, header_time_offset(uri, n.as_ref())); } }
@@ -401,6 +407,7 @@ fn run_unit(input: &Value) -> CaseOut {
         assert!(raw.insert(name, data).is_none(), "two files with one name");
     }
     let mut names: Vec<String> = vec!["PStatus".into(), "(PTmp 0)".into(), "(PTmp 1)".into()];
+    for k in 0..strays.len() { names.push(format!("(PTmp {})", 9 + k)); }
     for (i, _, _, _) in &u.points { names.push(format!("(PPoint {})", i)); }
     for (i, _, _) in &u.tas { names.push(format!("(PTa {})", i)); }
     let coq_fs = coq_list(names.iter(), |n| format!("({}, {})", n,
@@ -422,13 +429,24 @@ fn run_unit(input: &Value) -> CaseOut {
         jviews.insert(format!("ta{}", i), j);
         views.push(format!("(PTa {}, OTa {})", i, c));
     }
+    // "every command keeps working": `routinator dump` over the store as the kill left it (reads stored/ only,
+    // writes into a directory of its own; run last so that it cannot disturb the other observations)
+    let dump_ok = {
+        let config = Config::default_with_paths(Default::default(), dir.join("cache"));
+        let store = Store::new(&config).expect("store");
+        let target = dir.join("dump-out");
+        std::fs::create_dir_all(&target).unwrap();
+        store.dump(&target).is_ok()
+    };
+    jviews.insert("dump".into(), json!(if dump_ok { "ok" } else { "failed" }));
+    if !strays.is_empty() { jviews.insert("unexpected_files".into(), json!(strays)); }
     let labels: Vec<u64> = out.kill_log.iter().map(|l| label_code(l.split('|').next().unwrap())).collect();
     let coq = format!(
-        "{{| c_init := {}; c_run := {}; c_k := {}; c_cut := {}; o_killed := {}; o_labels := {}; o_fs := Some {}; o_views := {}; o_next_ok := true |}}",
+        "{{| c_init := {}; c_run := {}; c_k := {}; c_cut := {}; o_killed := {}; o_labels := {}; o_fs := Some {}; o_views := {}; o_next_ok := {} |}}",
         coq_list(input["init"].as_array().unwrap().iter(), coq_uact),
         coq_list(input["run"].as_array().unwrap().iter(), coq_uact),
         k, coq_opt(cut.map(|c| c.to_string())), coq_bool(out.killed), coq_nlist(labels.iter()), coq_fs,
-        format!("[{}]", views.join("; ")));
+        format!("[{}]", views.join("; ")), coq_bool(dump_ok));
     let obs = json!({"killed": out.killed, "kill_log": out.kill_log, "views": jviews,
                      "files": raw.iter().map(|(k, v)| (k.clone(), json!(hexs(v)))).collect::<serde_json::Map<_, _>>()});
     CaseOut { obs, coq, nontrivial: out.killed }
